@@ -9,7 +9,7 @@ MODULE = "Poupool.Properties.C02"
 def run(chk):
     from vlib import lean as _lean
     ac.run_actor_property(chk, MODULE, THEOREMS, monitor_pids=["C02"], extra=globals().get("extra"))
-    ac.dispatch_facts(chk, ['C14_fact_methods', 'C14_fact_modes', 'C14_fact_speed_eco', 'C14_fact_speed_standby', 'C14_fact_speed_overflow'])
+    ac.dispatch_facts(chk, ['C14_fact_routing', 'C14_fact_modes', 'C14_fact_speed_eco', 'C14_fact_speed_standby', 'C14_fact_speed_overflow'])
     from checks import main_wiring as _mw
     _mw.run(chk, [chk.pid])
     _lean.check_theorems(chk, "Poupool.Properties.Compose", COMPOSE)
